@@ -99,9 +99,17 @@ impl ValveScn {
 
 pub fn scenario(t: &mut Tape, max_players: u64) -> ValveScn {
     let via_game_module = t.draw(CFG, 5) == 0;
+    // Counter-Strike: Source is the game whose protocol-7 servers leave the size field out of their split
+    // packets: that is a fact about the game, not about how the code under test happens to describe it
+    let mut is_css = false;
     let (engine, gather, entry, default_port): (Engine, Option<GatheringSettings>, Entry, u16) = if via_game_module {
-        let i = t.draw(CFG, VALVE_GAMES.len() as u64) as usize;
+        // (one module case in eight is that game)
+        let i = match VALVE_GAMES.iter().position(|r| r.module == "css") {
+            Some(css) if t.draw(CFG, 8) == 0 => css,
+            _ => t.draw(CFG, VALVE_GAMES.len() as u64) as usize,
+        };
         let row = &VALVE_GAMES[i];
+        is_css = row.module == "css";
         ((row.engine)(), Some((row.gather)()), Entry::ValveGame(i), crate::golden::module_port(row.module, row.port))
     } else {
         let engine = match t.draw(CFG, 10) {
@@ -146,10 +154,10 @@ pub fn scenario(t: &mut Tape, max_players: u64) -> ValveScn {
         st.compact_rules(65_535);
     }
     st.fit(goldsrc);
-    if engine == Engine::new(240) && t.draw(CFG, 2) == 0 {
+    if (engine == Engine::new(240) || is_css) && t.draw(CFG, 2) == 0 {
         st.protocol = 7;
     }
-    let quirk = no_size_quirk(&engine, st.protocol);
+    let quirk = no_size_quirk(&engine, st.protocol) || (is_css && st.protocol == 7);
     let mut enc = [vm::gen_enc(t, goldsrc, !quirk), vm::gen_enc(t, goldsrc, true), vm::gen_enc(t, goldsrc, true)];
     // bzip2-compressed split (Source engine only): the reply comes from the python-built pool
     let mut compressed: [Option<vm::Compressed>; 3] = [None, None, None];
